@@ -134,7 +134,11 @@ impl EngineSession {
         if let Err(e) = crate::validate::validate_packet_outbound(&packet) {
             return Ok(format!("res=rejected:{} bytes=x comps=", error_kind(&e)));
         }
-        let timeout = get_num::<u64>(&kv, "timeout")?.map(Duration::from_millis);
+        // `timeout=max` is the largest duration the options builders accept
+        let timeout = match get(&kv, "timeout") {
+            Some("max") => Some(Duration::MAX),
+            _ => get_num::<u64>(&kv, "timeout")?.map(Duration::from_millis),
+        };
         let index = self.next_user_op;
         let sink = self.completions.clone();
         let event = match (verb, &packet) {
